@@ -119,7 +119,9 @@ impl Chain {
             let last = i + 1 == self.segs.len();
             if let Resp::Returns(v) = resp {
                 let single_use_position = single_entry && i == 0;
-                if !v.is_clone() && (!single_use_position || matches!(quant, Quant::NTimes | Quant::AtLeast)) {
+                if !v.is_clone()
+                    && (!single_use_position || matches!(quant, Quant::NTimes | Quant::AtLeast))
+                {
                     out.push(("E0277", vec!["IntoReturn<", ": Clone"]));
                 }
             }
@@ -160,14 +162,23 @@ impl Chain {
             .segs
             .iter()
             .enumerate()
-            .map(|(i, (r, q))| format!("{}{}{}", if i > 0 { ".then()" } else { "" }, resp(r), quant(q)))
+            .map(|(i, (r, q))| {
+                format!(
+                    "{}{}{}",
+                    if i > 0 { ".then()" } else { "" },
+                    resp(r),
+                    quant(q)
+                )
+            })
             .collect();
         s.push_str("pub fn build() -> impl Clause {\n");
         match self.entry {
             Entry::SomeCall => s.push_str(&format!("    M::{m}.some_call(matching!()){chain}\n")),
             Entry::NextCall => s.push_str(&format!("    M::{m}.next_call(matching!()){chain}\n")),
             Entry::EachCall => s.push_str(&format!("    M::{m}.each_call(matching!()){chain}\n")),
-            Entry::StubCall => s.push_str(&format!("    M::{m}.stub(|each| {{ each.call(matching!()){chain}; }})\n")),
+            Entry::StubCall => s.push_str(&format!(
+                "    M::{m}.stub(|each| {{ each.call(matching!()){chain}; }})\n"
+            )),
         }
         s.push_str("}\n");
         s
@@ -191,23 +202,43 @@ pub trait Tr {
 
 /// Every chain of one or two segments over the grammar.
 pub fn all_chains() -> Vec<Chain> {
-    let entries = [Entry::SomeCall, Entry::NextCall, Entry::EachCall, Entry::StubCall];
-    let vals = [Val::CloneVal, Val::NonClone, Val::OptNonClone, Val::MixedTupleNonClone, Val::MixedTupleClone];
+    let entries = [
+        Entry::SomeCall,
+        Entry::NextCall,
+        Entry::EachCall,
+        Entry::StubCall,
+    ];
+    let vals = [
+        Val::CloneVal,
+        Val::NonClone,
+        Val::OptNonClone,
+        Val::MixedTupleNonClone,
+        Val::MixedTupleClone,
+    ];
     let quants = [Quant::None, Quant::Once, Quant::NTimes, Quant::AtLeast];
     let mut out = vec![];
     for e in entries {
         for v in vals {
             for r in [Resp::Returns(v), Resp::Answers] {
                 for q in quants {
-                    out.push(Chain { entry: e, segs: vec![(r, q)] });
+                    out.push(Chain {
+                        entry: e,
+                        segs: vec![(r, q)],
+                    });
                     // two segments: the second one returns the same kind of value or answers
                     for r2 in [Resp::Returns(v), Resp::Answers] {
                         for q2 in [Quant::None, Quant::NTimes, Quant::AtLeast] {
                             // keep the value kind of the chain unambiguous
-                            if matches!(r, Resp::Answers) && matches!(r2, Resp::Answers) && v != Val::CloneVal {
+                            if matches!(r, Resp::Answers)
+                                && matches!(r2, Resp::Answers)
+                                && v != Val::CloneVal
+                            {
                                 continue;
                             }
-                            out.push(Chain { entry: e, segs: vec![(r, q), (r2, q2)] });
+                            out.push(Chain {
+                                entry: e,
+                                segs: vec![(r, q), (r2, q2)],
+                            });
                         }
                     }
                 }
@@ -227,9 +258,16 @@ pub fn run(ctx: &Ctx, which: &str) -> SubReport {
     let mut chains: Vec<Chain> = all_chains()
         .into_iter()
         .filter(|c| {
-            let about_values = c.segs.iter().any(|(r, _)| matches!(r, Resp::Returns(v) if !v.is_clone()));
+            let about_values = c
+                .segs
+                .iter()
+                .any(|(r, _)| matches!(r, Resp::Returns(v) if !v.is_clone()));
             match which {
-                "C12" => about_values || c.value_kind().is_clone() && c.segs.iter().any(|(r, _)| matches!(r, Resp::Returns(_))),
+                "C12" => {
+                    about_values
+                        || c.value_kind().is_clone()
+                            && c.segs.iter().any(|(r, _)| matches!(r, Resp::Returns(_)))
+                }
                 _ => !about_values,
             }
         })
@@ -239,7 +277,14 @@ pub fn run(ctx: &Ctx, which: &str) -> SubReport {
     rep.exhaustive = true;
     chains.truncate(usize::MAX);
     let project = Project::new(&format!("{which}-cfail"), PRELUDE);
-    let cases: Vec<GenCase> = chains.iter().enumerate().map(|(id, c)| GenCase { id, source: c.source() }).collect();
+    let cases: Vec<GenCase> = chains
+        .iter()
+        .enumerate()
+        .map(|(id, c)| GenCase {
+            id,
+            source: c.source(),
+        })
+        .collect();
     let verdicts = match project.check_each(&cases) {
         Ok(v) => v,
         Err(e) => {
@@ -253,12 +298,17 @@ pub fn run(ctx: &Ctx, which: &str) -> SubReport {
         let src = chain.source();
         let line = src.lines().nth(1).unwrap_or("").trim().to_string();
         let res: Result<CaseInfo, String> = match (&expect, verdict) {
-            (Expect::Compiles, Ok(())) => Ok(CaseInfo::new(chain.segs.len() >= 2 || chain.segs[0].1 != Quant::None).class("legal-chain-compiles")),
+            (Expect::Compiles, Ok(())) => Ok(CaseInfo::new(
+                chain.segs.len() >= 2 || chain.segs[0].1 != Quant::None,
+            )
+            .class("legal-chain-compiles")),
             (Expect::Compiles, Err(diag)) => Err(format!(
                 "HARNESS: a chain the builder documents as legal does not compile: `{line}`: {}",
                 diag.lines().take(6).collect::<Vec<_>>().join(" / ")
             )),
-            (Expect::Fails(..), Ok(())) => Err(format!("the builder accepts `{line}`, which must not type-check")),
+            (Expect::Fails(..), Ok(())) => Err(format!(
+                "the builder accepts `{line}`, which must not type-check"
+            )),
             (Expect::Fails(codes, needles), Err(diag)) => {
                 let code_ok = codes.split('|').any(|c| diag.contains(&format!("[{c}]")));
                 let needle_ok = needles.iter().any(|n| diag.contains(n));
